@@ -88,6 +88,11 @@ class _FieldOfDressed:
         else:
             self.content = None
             setattr(container._xobject, self.name, value)
+            if hasattr(container, "_dressed_" + self.name) and isinstance(
+                getattr(container._XoStruct, self.name).ftype, Ref
+            ):
+                # the reference does not point to the dressed object anymore
+                delattr(container, "_dressed_" + self.name)
 
 
 class JEncoder(json.JSONEncoder):
